@@ -28,7 +28,14 @@ def ensemble_case(draw, families, forms=("ket1d", "ketcol", "dm"), nmin=2, nmax=
     pk = draw(st.sampled_from(["none", "uniform", "dyadic"] if allow_none_probs else ["uniform", "dyadic"]))
     counts = None
     if pk == "dyadic":
+        # "any prior" includes priors that are exactly zero for some states (seeded changes C11-t3 / C12-t2 prune or
+        # mis-pair such states; every generated prior used to be >= 1/64)
         counts = draw(gen.dyadic_probs(n, m=6, allow_zero=False))
+        if n >= 2 and draw(st.integers(0, 3)) == 0:
+            z = draw(st.integers(0, n - 1))
+            t = (z + 1 + draw(st.integers(0, n - 2))) % n
+            counts[t] += counts[z]
+            counts[z] = 0
     # mixed dtypes inside one ensemble: the first state is stored as a real (float) array, the others are complex
     # (added after seeded changes C10-s2 / C11-s1, which look only at the first state's dtype, were considered)
     real_first = cplx and fam in ("generic", "two", "mixed") and draw(st.integers(0, 3)) == 0
